@@ -126,6 +126,12 @@ class HComponent(BaseComponent):
     def __hash__(self):
         return self._vh
 
+    def set_placed_workplace(self, placed_workplace, set_to_all_children=True):
+        if not hasattr(self, "_assignments"):
+            self._assignments = []
+        self._assignments.append(placed_workplace.ID if placed_workplace is not None else None)
+        BaseComponent.set_placed_workplace(self, placed_workplace, set_to_all_children=set_to_all_children)
+
 
 class Handles(object):
     """Objects of a built project, by spec index."""
